@@ -447,7 +447,9 @@ fn make_cfg(fam: &str, v: &[u16; 4], vf: &[f64; 4]) -> OpCfg {
             let missing = split(split(vf[0], 2).1, 3).0 == 0;
             tag = format!("{t}{}", if null { " null" } else { "" });
             if bands == 0 {
-                format!("gridshift grids=@c10.absent{}", if null { ",@null" } else { "" })
+                // only optional grids, none of them available: without @null every point is outside coverage
+                let list = if missing { "@c10.absent" } else { "@c10.absent,@c10.absent2.gsb" };
+                format!("gridshift grids={list}{}", if null { ",@null" } else { "" })
             } else {
                 let g = make_grid(&format!("c10.{t}"), bands, pattern, v, vf);
                 let d = format!("gridshift grids={}{}{}", if missing { "@c10.absent," } else { "" }, g.name, if null { ",@null" } else { "" });
@@ -457,11 +459,18 @@ fn make_cfg(fam: &str, v: &[u16; 4], vf: &[f64; 4]) -> OpCfg {
         }
         "deflection" => {
             let null = split(vf[0], 2).0 == 1;
-            tag = if null { "null" } else { "" }.to_string();
-            let g = make_grid("c10.geoid", 1, 0, v, vf);
-            let d = format!("deflection grids={}{} ellps=GRS80", g.name, if null { ",@null" } else { "" });
-            grid = Some(g);
-            d
+            if v[0] % 5 == 4 {
+                // only optional grids, none of them available
+                tag = format!("nogrid{}", if null { " null" } else { "" });
+                let list = if v[1] % 2 == 0 { "@c10.absent" } else { "@c10.absent,@c10.absent2" };
+                format!("deflection grids={list}{} ellps=GRS80", if null { ",@null" } else { "" })
+            } else {
+                tag = if null { "null" } else { "" }.to_string();
+                let g = make_grid("c10.geoid", 1, 0, v, vf);
+                let d = format!("deflection grids={}{} ellps=GRS80", g.name, if null { ",@null" } else { "" });
+                grid = Some(g);
+                d
+            }
         }
         "deformation" => {
             let null = split(vf[0], 2).0 == 1;
@@ -469,14 +478,26 @@ fn make_cfg(fam: &str, v: &[u16; 4], vf: &[f64; 4]) -> OpCfg {
             let epoch = v[0] % 2 == 0;
             tag = format!("{}{}{}", if epoch { "epoch" } else { "dt" }, if raw { " raw" } else { "" }, if null { " null" } else { "" });
             let g = make_grid("c10.deformation", 3, 0, v, vf);
+            // one configuration in five: only optional grids, none of them available
+            let nogrid = v[1] % 5 == 4;
+            let list = if !nogrid {
+                g.name.clone()
+            } else if v[2] % 2 == 0 {
+                "@c10.absent".to_string()
+            } else {
+                "@c10.absent,@c10.absent2".to_string()
+            };
             let d = format!(
-                "deformation{} {} grids={}{} ellps=GRS80",
+                "deformation{} {} grids={list}{} ellps=GRS80",
                 if raw { " raw" } else { "" },
                 if epoch { "t_epoch=2010" } else { "dt=2.5" },
-                g.name,
                 if null { ",@null" } else { "" }
             );
-            grid = Some(g);
+            if nogrid {
+                tag.push_str(" nogrid");
+            } else {
+                grid = Some(g);
+            }
             d
         }
         "stackalone" => {
@@ -588,7 +609,7 @@ fn traits(cfg: &OpCfg, fwd: bool) -> Traits {
         "deflection" => {
             t.exempt = true;
             t.w = [true, true, true, true];
-            // with @null the intended behaviour for a NaN position is not documented: identity only
+            // with @null the intended behaviour for a NaN position is not documented: no dependency asserted
             t.d = if has("null") { [[false; 4]; 4] } else { dep(&XY_FULL) };
         }
         "geodesic" => {
@@ -846,9 +867,22 @@ fn any_p4(u: &[f64; 6]) -> P4 {
 fn gen_grid_family(cfg: &OpCfg, sel: u8, u: &[f64; 6]) -> (P4, Cls, bool) {
     let has = |s: &str| cfg.tag.split(' ').any(|t| t == s);
     let Some(g) = &cfg.grid else {
-        // gridshift without any available grid: nothing to do, everything passes
-        let (lon, lat) = any_geo(u);
-        return (p4(lon, lat, zsel(u[4]), tsel(u[5])), Cls::Any, false);
+        // Only optional grids were listed and none of them is available: the operator instantiates
+        // (Rumination 002: optional grids do not block instantiation) with an empty grid list, so every
+        // point is outside coverage: without @null NaN-marked and not counted, with @null passed and counted.
+        let cls = if has("null") { Cls::NullPass } else { Cls::Far };
+        let p = match cfg.fam.as_str() {
+            "gridshift" => {
+                let (lon, lat) = if sel < 7 { (lerp(u[0], -PI, PI), lerp(u[1], -FRAC_PI_2, FRAC_PI_2)) } else { any_geo(u) };
+                p4(lon, lat, zsel(u[4]), tsel(u[5]))
+            }
+            "deflection" => p4(lerp(u[1], -90.0, 90.0), lerp(u[0], -180.0, 180.0), zsel(u[4]), tsel(u[5])),
+            _ => {
+                let c = El::grs80().cartesian(lerp(u[0], -PI, PI), lerp(u[1], -1.55, 1.55), lerp(u[4], -100.0, 3000.0));
+                p4(c[0], c[1], c[2], tsel_nonneg_zero(u[5]))
+            }
+        };
+        return (p, cls, false);
     };
     let (where_, cls) = match sel {
         0..=3 => (0u8, if has("wild") { Cls::Edge } else { Cls::Interior }),
@@ -1708,6 +1742,7 @@ fn main() {
     run.assume("counting a NaN-in/NaN-out tuple as a success is not flagged; a NaN-free tuple outside the Interior class that is counted although its result carries NaN is only tallied (counter nanfree_in_nan_out_but_counted)");
     run.assume("no infinities are generated (IEEE hypot(inf, NaN) = inf would make the NaN clause unsound); an epoch of -0.0 is not generated for `deformation` (it adds +0.0 to the fourth element, so -0.0 would come back as +0.0: pedantic, excluded by construction)");
     run.assume("dependency table transcribed from the sources; left out: deflection with @null and a NaN position (undocumented), deformation with @null (pass-through: identity only), the epoch dependency of deformation with @null; geodesic/gravity/curvature/deflection (look-up helpers) are exempt from the untouched-axes clause; deformation `raw` replaces the fourth element by design");
+    run.assume("grid lists consisting only of unavailable optional (@-prefixed) grids instantiate with an empty list (documented: optional grids do not block instantiation); every point is then outside coverage: without @null it must be NaN-marked and not counted, with @null passed through and counted (gridshift both directions, deflection, deformation both directions; one configuration in five)");
     run.assume("stand-alone push/pop/stack steps act only inside a pipeline: reporting 0 with the data untouched is accepted for them; pipelines containing a one-way operator are only checked for count = min over the steps (data legitimately stays finite)");
     run.assume("origin-shift: the unshifted input is recomputed with the subtraction the operator itself performs (x - x_0, y - y_0, lon - lon_0), so both operators see bit-identical reduced values; points where the unshifted operator's outcome changes within 1e-9 relative (+1 mm) / 1e-9 rad are excluded (counter excluded_unstable_neighbourhood); only the pattern (count, which elements are NaN) is compared, values belong to C13");
     run.assume("pipeline count is compared with the minimum over the counts of the same steps instantiated stand-alone and applied one after the other to the same data (omit_* modifiers and macros belong to C03/C04)");
@@ -1758,7 +1793,7 @@ fn main() {
     let n = run.scale(25_000, 400_000);
     run.section(
         "grid-operators",
-        "gridshift (geoid / datum / non-contracting 'wild' grid / no grid available), deflection, deformation (t_epoch / dt / raw) on generated Gravsoft grids served by GridCtx, with and without @null and @optional-missing entries; tuples inside, around the border, beyond the half-cell margin, anywhere",
+        "gridshift (geoid / datum / non-contracting 'wild' grid / no grid available), deflection, deformation (t_epoch / dt / raw) on generated Gravsoft grids served by GridCtx, with and without @null and @optional-missing entries; tuples inside, around the border, beyond the half-cell margin, anywhere; one configuration in five lists only unavailable optional grids (empty grid list: everything is outside coverage)",
         n,
         || case_strategy(&GRID_FAMILIES),
         check,
